@@ -522,9 +522,11 @@ def plainStmt : Stmt → Bool
   | .noop _ _ => true
   | .createTableLike _ _ => true
   | .createTable _ _ _ => true
+  | .insertValues _ _ _ => true
   | _ => false
 
-theorem analyze_holderOK_plain (env : Env) (silent : Bool) (s : Stmt) (hs : plainStmt s = true) (g : LGraph)
+theorem analyze_holderOK_plain (env : Env) (silent : Bool) (s : Stmt) (hp : env.prov.truthy = false)
+    (hs : plainStmt s = true) (g : LGraph)
     (hg : analyze env silent s = .ok g) : HolderOK g ∧ Paths.WF g := by
   cases s with
   | query q br =>
@@ -566,7 +568,30 @@ theorem analyze_holderOK_plain (env : Env) (silent : Bool) (s : Stmt) (hs : plai
     refine ⟨holderOK_of_noColSrc _ (by intro u v he; cases he), ?_⟩
     intro e he; cases he
   | insert _ _ _ _ _ _ => simp [plainStmt] at hs
-  | insertValues _ _ _ => simp [plainStmt] at hs
+  | insertValues tgt cols rows =>
+    -- `INSERT INTO tgt [(c1, …)] VALUES …`: the written table, with its listed columns if any
+    have hg0 : g = writeTargetHolder env true tgt cols ∨ g = Graph.empty := by
+      unfold analyze at hg
+      split at hg
+      · split at hg <;> simp at hg
+        exact Or.inr hg.symm
+      · simp at hg; exact Or.inl hg.symm
+    rcases hg0 with rfl | rfl
+    · cases cols with
+      | none =>
+        rw [writeTargetHolder_none env true tgt hp]
+        refine ⟨holderOK_of_noColSrc _ (by intro u v he; rw [g0_edges] at he; cases he), ?_⟩
+        intro e he; rw [g0_edges] at he; cases he
+      | some cs =>
+        obtain ⟨s', nm, al, hmk⟩ : ∃ s' nm al, mkTable env tgt none = ⟨.table s' nm, al⟩ := ⟨_, _, _, rfl⟩
+        rw [writeTargetHolder_some env true tgt cs hp s' nm al hmk]
+        refine ⟨holderOK_of_noColSrc _ ?_, (wf_addWriteColumns _ _ (g0_wf _)).edges⟩
+        intro u v he
+        rcases addWriteColumns_edges _ _ u v he with ⟨h1, h2⟩ | ⟨h1, _⟩
+        · exact ⟨h1, by rw [h2]; simp⟩
+        · rw [g0_edges] at h1; cases h1
+    · refine ⟨holderOK_of_noColSrc _ (by intro u v he; cases he), ?_⟩
+      intro e he; cases he
   | ctas _ _ _ _ _ => simp [plainStmt] at hs
   | createView _ _ _ _ => simp [plainStmt] at hs
   | createTable tgt ine cols =>
